@@ -528,15 +528,19 @@ def translate():
     attempt("scheme", do_scheme)
     attempt("combined", do_combined)
     attempt("errors", do_errors)
+    try:
+        out["cfgSites"] = cfg_sites()
+    except Exception as e:   # noqa: the scan is plain text processing; if it ever fails, C17's tie is reported broken
+        out["cfgSites"] = []
+        failed["cfg"] = "%s: %s" % (type(e).__name__, e)
     out["untranslated"] = failed
-    out["cfgSites"] = cfg_sites()
     return out
 
 
 ITEM_KEYS = {"sets": ["sets", "setNames"], "typeSpecials": ["typeSpecials"], "keySpecials": ["keySpecials"], "dashChars": ["dashChars"],
              "types": ["variants", "phf"], "names": ["names", "serdeRename"], "keys": ["checksumKey", "knownKeys"], "scheme": ["scheme"],
              "combined": ["combinedSplit", "combinedJoin"],
-             "errors": ["parseErrorText", "packageErrorText", "unsupportedPackageTypeText", "fieldNames"]}
+             "errors": ["parseErrorText", "packageErrorText", "unsupportedPackageTypeText", "fieldNames"], "cfg": ["cfgSites"]}
 
 
 def emit_lean(t):
